@@ -84,6 +84,11 @@ func (fit *fiterator) Release() {
 
 func (fit *fiterator) SetBackward(bkwd bool) {
 	fit.it.SetBackward(bkwd)
+	// the iterators below forget their selection on a direction switch, the cached event must not outlive it
+	if fit.valid {
+		fit.le.MakeItSafe()
+	}
+	fit.valid = false
 }
 
 func (fit *fiterator) CurrentPos() records.IteratorPos {
